@@ -26,7 +26,7 @@ def vals_t(ty, rng):
         return fv(b=rng.choice([b"", b"cow", "é".encode()]))
     if ty in ("bstr",):
         ty = "str"
-    if ty in ("bslice", "bu8"):
+    if ty in ("bslice", "bu8", "cowbu8"):
         ty = "bytes"
     if ty == "str":
         return fv(b=rng.choice([b"", b"ab", b"x", "é".encode(), b"abcdefghijklmnopqrstuvwxyz"[:rng.randint(0, 26)]]))
@@ -58,7 +58,7 @@ def rand_field(idx, rng, allow_skip=True, nested=True):
     ty = rng.choice(BASIC + (NESTED_TYS if nested else [])) if rng.random() < 0.75 else rng.choice(["u8", "str"])
     opt = rng.random() < 0.55
     if not opt and ty == "str" and rng.random() < 0.15:
-        ty = rng.choice(["cowb", "cown"])
+        ty = rng.choice(["cowb", "cown", "cowbu8"])
     tag = rng.choice(TAGS) if rng.random() < 0.25 else -1
     osp = "plain"
     if opt and ty in ("u8", "str") and rng.random() < 0.3:
